@@ -142,15 +142,19 @@ def gen_vmfields(man):
     rs_assign = self_assignments(vm, o + 1, c)
     rs_calls = self_calls(vm, o + 1, c)
     rs_fcalls = ["%s.%s" % fm for fm in self_field_calls(vm, o + 1, c)]
-    # reset_stack: `<x>.F.clear()` for fields F of the fiber
+    # reset_stack: `<x>.F.clear()` for fields F of the failing fiber, and inside the loop over the waiting fibers
     o, c = fn_body(vm, "reset_stack", impl)
-    clears = []
-    for j in range(o, c - 4):
-        if vm[j].text == "." and vm[j + 1].kind == "id" and vm[j + 2].text == "." and vm[j + 3].text == "clear" and vm[j + 4].text == "(":
-            clears.append(vm[j + 1].text)
-    n_close = len(find_all_seq(vm, [".", "close_upvalues", "("], o, c))
     w = find_seq(vm, ["while", "let"], o, c)
-    walks = w >= 0 and find_seq(vm, [".", "caller"], w, match_group(vm, body_after(vm, w)[0])) >= 0
+    wo, wc = body_after(vm, w) if w >= 0 else (c, c)
+
+    def clears_in(lo, hi):
+        return [vm[j + 1].text for j in range(lo, hi - 4)
+                if vm[j].text == "." and vm[j + 1].kind == "id" and vm[j + 2].text == "." and vm[j + 3].text == "clear" and vm[j + 4].text == "("]
+    waiting_clears = clears_in(wo, wc)
+    clears = clears_in(o, wo) + clears_in(wc, c)
+    n_close = len(find_all_seq(vm, [".", "close_upvalues", "("], o, c))
+    n_take = len(find_all_seq(vm, [".", "caller", ".", "take", "("], o, c))
+    walks = w >= 0 and find_seq(vm, [".", "caller"], wo, wc) >= 0
     rst_fiber_only = find_seq(vm, ["self", ".", "fiber"], o, c) >= 0 and not self_assignments(vm, o + 1, c)
     # runtime_error: calls reset_stack, assigns no Vm field
     o, c = fn_body(vm, "runtime_error", impl)
@@ -201,7 +205,10 @@ def gen_vmfields(man):
              "Definition reset_stack_fiber_only_src : bool := %s." % b(rst_fiber_only),
              "(* close_upvalues calls in reset_stack, and whether a loop follows the `caller` links *)",
              "Definition reset_stack_close_upvalues_src : nat := %d." % n_close,
-             "Definition reset_stack_walks_callers_src : bool := %s." % b(walks), "",
+             "Definition reset_stack_walks_callers_src : bool := %s." % b(walks),
+             "(* what the loop clears in every waiting fiber, and the `caller.take()` calls *)",
+             "Definition reset_stack_waiting_clears_src : list string := %s." % coq_list(waiting_clears),
+             "Definition reset_stack_caller_takes_src : nat := %d." % n_take, "",
              "(* fn runtime_error *)",
              "Definition runtime_error_calls_src : list string := %s." % coq_list(re_calls),
              "Definition runtime_error_assigns_src : list string := %s." % coq_list(re_assign), "",
